@@ -56,7 +56,11 @@ func (r *Recorder) Publish(evts ...events.Event) {
 	}
 }
 
-func (r *Recorder) Count(reason string) int { r.mu.Lock(); defer r.mu.Unlock(); return r.Counts[reason] }
+func (r *Recorder) Count(reason string) int {
+	r.mu.Lock()
+	defer r.mu.Unlock()
+	return r.Counts[reason]
+}
 
 // Env is one world: API, clock, provider and the in-memory Karpenter components built over them.
 type Env struct {
